@@ -6443,8 +6443,11 @@ fn eval_expr(
                     ExpressionState::EvaluatedSubexpressions,
                     Rc::clone(&outer_expr),
                 );
+                // eval_match_cases pops the scrutinee. If it fails, push
+                // the scrutinee back so resuming matches on it again.
+                let scrutinee_value = env.current_frame().evalled_values.last().cloned();
                 eval_match_cases(env, expr_value_is_used, &scrutinee.position, cases)
-                    .map_err(|e| (RestoreValues(vec![]), e))?;
+                    .map_err(|e| (RestoreValues(scrutinee_value.into_iter().collect()), e))?;
             }
             ExpressionState::EvaluatedSubexpressions => {
                 env.current_frame_mut().bindings.pop_block();
